@@ -194,6 +194,16 @@ func runC18Enrich(c *fw.Ctx, id string) {
 	if d.TestRunID != "keep-me" || fmt.Sprint(d.E2eProbe.RTTs) != "[1 0 2]" {
 		c.Violate("C18", "enrichment-altered-doc", id+": document changed beyond names", detail())
 	}
+	// names belong to an address: once an entry has lost its address (private-hop redaction of the enriched document, as
+	// RunTraceroute does it) it cannot keep the names that were looked up for it
+	d.RemovePrivateHops()
+	for i := range d.Traceroute.Runs {
+		for _, h := range d.Traceroute.Runs[i].Hops {
+			if len(h.IPAddress) == 0 && len(h.ReverseDns) > 0 {
+				c.Violate("C18", "names-without-address", fmt.Sprintf("%s: hop %d has no address but the names %v", id, h.TTL, h.ReverseDns), detail())
+			}
+		}
+	}
 	c.Sample(map[string]any{"case": id, "doc": fmtDocNames(d)})
 }
 
